@@ -45,10 +45,14 @@
 (* what an uninterrupted node has) and DiskPages.                          *)
 (*                                                                         *)
 (* Named deviations (Dev; {} = the design that satisfies the property):    *)
-(*  "TrustedInit"     init() as the PRESENT code computes it for a node    *)
-(*                    started from TrustedHeader: reads the previous page  *)
-(*                    when (stored>missing+Page or cur%Page # T%Page), pads *)
-(*                    latest to cur-len(headers) instead of T-stored       *)
+(*  "TrustedInit"     init() as the pinned code computes it for a node     *)
+(*                    started from TrustedHeader: it reads the previous    *)
+(*                    page when stored - missing >= Page or cur % Page #   *)
+(*                    T % Page, and pads latest to cur - len(headers)      *)
+(*                    entries instead of T - stored (reproduced on the     *)
+(*                    real code: restart panics / fails / comes back with  *)
+(*                    a wrong list whenever T is not in page 0; candidate  *)
+(*                    fix: .work/c02-headerhashes-candidate-fix.diff)      *)
 (*  "GCLastPage"      page GC may delete the newest complete page          *)
 (*  "ResetKeepsPages" Reset does not delete the pages above its target     *)
 (*  "ResetKeepsLRU"   Reset keeps the LRU of pages                          *)
